@@ -311,6 +311,7 @@ class Unit(HookHost):
             super().append(unit)
 
         def extend(self, units: Iterable["Unit"]) -> None:
+            units = list(units)
             for u in units:
                 u.parent = self._owner()
             super().extend(units)
